@@ -1066,3 +1066,98 @@ v("C13", "tensor-parse-safe-load", "fire", T,
   "                y_file = yaml.full_load(stream)", "                y_file = yaml.safe_load(stream)", "C13.R1")
 v("C13", "silent-tensor-dump-parse-both-safe", "silent", T,
   "            yaml.dump(tensor_dict, file)", "            yaml.dump(tensor_dict, file, Dumper=yaml.Dumper)", None)
+
+
+# -- rules derived from the second mutation study (DESIGN.md 10.9)
+_U = "codec/formats/uncompressed.py"
+_C = "codec/formats/coord_list.py"
+_B = "codec/formats/bitvector.py"
+_TC = "codec/tensor_codec.py"
+v("C20", "U-level-test-le", "fire", _U,
+  "            if depth < len(ranks) - 1:\n                fiber, child_occupancy",
+  "            if depth <= len(ranks) - 1:\n                fiber, child_occupancy", "C20.R10")
+v("C20", "B-level-test-minus-2", "fire", _B,
+  "        if depth < len(ranks) - 1:\n            if codec.format_descriptor",
+  "        if depth < len(ranks) - 2:\n            if codec.format_descriptor", "C20.R10")
+v("C20", "C-level-test-ge-spelling", "silent", _C,
+  "            if depth == len(ranks) - 1:", "            if depth >= len(ranks) - 1:")
+v("C20", "C-running-sum-starts-at-1", "fire", _C,
+  "        cumulative_occupancy = 0\n", "        cumulative_occupancy = 1\n", "C20.R10")
+v("C20", "C-running-sum-subtracts", "fire", _C,
+  "                    cumulative_occupancy = cumulative_occupancy + child_occupancy",
+  "                    cumulative_occupancy = cumulative_occupancy - child_occupancy", "C20.R10")
+v("C20", "U-isinstance-swapped", "fire", _U,
+  "                if isinstance(cumulative_occupancy, int):",
+  "                if isinstance(int, cumulative_occupancy):", "C20.R10")
+v("C20", "B-next-fmt-dropped", "fire", _B,
+  "        if depth < len(ranks) - 1:\n            self.next_fmt = codec.fmts[depth + 1]        \n",
+  "", "C20.R10")
+v("C20", "B-descriptor-two-below", "fire", _B,
+  'if codec.format_descriptor[depth + 1] == "Hf" or',
+  'if codec.format_descriptor[depth + 2] == "Hf" or', "C20.R10")
+v("C20", "B-mask-of-ones", "fire", _B,
+  "        self.coords = [0]*dim_len", "        self.coords = [1]*dim_len", "C20.R10")
+v("C20", "encode-slot-depth-plus-2", "fire", _TC,
+  "        output_tensor[depth+1].append(fiber)", "        output_tensor[depth+2].append(fiber)",
+  "C20.R11")
+v("C20", "encode-root-last-format", "fire", _TC,
+  "            if self.fmts[0].encodeUpperPayload():",
+  "            if self.fmts[-1].encodeUpperPayload():", "C20.R11")
+v("C20", "encode-root-extend", "fire", _TC,
+  "                output[payloads_key].append(size)",
+  "                output[payloads_key].extend(size)", "C20.R11")
+v("C20", "B-setupSlice-no-chain", "fire", _B,
+  "        super().setupSlice(base, bound, max_num)\n", "", "C20.R12")
+v("C20", "B-limit-test-eq-none", "fire", _B,
+  "        if self.num_to_ret != None and self.num_to_ret < self.num_ret_so_far:\n            return None\n        # move to the next nonzero",
+  "        if self.num_to_ret == None and self.num_to_ret < self.num_ret_so_far:\n            return None\n        # move to the next nonzero",
+  "C20.R12")
+v("C20", "B-scan-stops-at-zero", "fire", _B,
+  "self.coords[self.iter_handle.coords_handle] != 1:",
+  "self.coords[self.iter_handle.coords_handle] != 0:", "C20.R12")
+v("C20", "B-handle-pair-swapped", "fire", _B,
+  "TwoHandle(self.iter_handle.coords_handle, self.iter_handle.payloads_handle)",
+  "TwoHandle(self.iter_handle.payloads_handle, self.iter_handle.coords_handle)", "C20.R12")
+v("C20", "C-lookup-empty-test-inverted", "fire", _C,
+  "        if len(self.coords) == 0:\n            return None\n        \n        elif coord > self.coords[-1]",
+  "        if len(self.coords) != 0:\n            return None\n        \n        elif coord > self.coords[-1]",
+  "C20.R13")
+v("C20", "C-lookup-front-answers-minus-1", "fire", _C,
+  "            self.stats[self.coords_read_key] += 1; # add to num accesses in binary search\n            return 0",
+  "            self.stats[self.coords_read_key] += 1; # add to num accesses in binary search\n            return -1",
+  "C20.R13")
+v("C20", "C-lookup-front-second-coordinate", "fire", _C,
+  "        elif coord <= self.coords[0]: # short path to beginning",
+  "        elif coord <= self.coords[1]: # short path to beginning", "C20.R13")
+v("C20", "U-lookup-lower-bound-1", "fire", _U,
+  "        if coord < 0 or coord >= self.shape:", "        if coord < 1 or coord >= self.shape:",
+  "C20.R13")
+v("C13", "parse-isinstance-swapped", "fire", T,
+  "        if not isinstance(y_file, dict) or 'tensor' not in y_file:",
+  "        if not isinstance(dict, y_file) or 'tensor' not in y_file:", "C13.R1")
+v("C13", "dict2fiber-truthiness-of-coords", "fire", F,
+  "            if 'coords' not in y_fiber:", "            if not y_fiber.get('coords'):", "C13.R1")
+v("C13", "uncompress-recursion-args-swapped", "fire", F,
+  "f.append(Payload.get(p).uncompress(shape, level + 1))",
+  "f.append(Payload.get(p).uncompress(level + 1, shape))", "C13.R2")
+v("C18", "subtree-sum-starts-at-1", "fire", FM,
+  "        total = 0\n\n        while len(fibers) > 0:", "        total = 1\n\n        while len(fibers) > 0:",
+  "C18.R3")
+v("C18", "subtree-loop-ge-0", "fire", FM,
+  "        while len(fibers) > 0:", "        while len(fibers) >= 0:", "C18.R3")
+v("C18", "subtree-loop-truthiness", "silent", FM,
+  "        while len(fibers) > 0:", "        while fibers:")
+v("C07", "iter-format-source-under-is-none", "fire", I,
+  "    elif self.getRankAttrs() is not None:\n        fmt = self.getRankAttrs().getFormat()",
+  "    elif self.getRankAttrs() is None:\n        fmt = self.getRankAttrs().getFormat()", "C07.R3")
+v("C18", "getElem-elem-case-inverted", "fire", FM,
+  '        elif type_ == "elem":', '        elif type_ != "elem":', "C18.R3")
+v("C18", "getElem-coord-gives-pbits", "fire", FM,
+  '        if type_ == "coord":\n            return self.spec[rank]["cbits"]',
+  '        if type_ == "coord":\n            return self.spec[rank]["pbits"]', "C18.R3")
+v("C11", "fiber-ilshift-clears-only-when-empty", "fire", F,
+  "        if len(self.coords) != 0:\n            #\n            # Clear out any existing data",
+  "        if len(self.coords) == 0:\n            #\n            # Clear out any existing data", "C11.R5")
+v("C11", "fiber-ilshift-clears-unconditionally", "silent", F,
+  "        if len(self.coords) != 0:\n            #\n            # Clear out any existing data",
+  "        if True:\n            #\n            # Clear out any existing data")
